@@ -1184,7 +1184,7 @@ def neutron_composite_sld(materials, wavelength=ABSORPTION_WAVELENGTH):
     # Input may be a scalar or a sequence. If it is a sequence, turn it into
     # an array before proceeding. If it is a scalar leave it as a scalar so
     # that float input returns float output.
-    is_multi = not np.isscalar(wavelength)
+    is_multi = np.ndim(wavelength) > 0
     if is_multi:
         wavelength = np.asarray(wavelength)
     # Query all parts of the composition
